@@ -110,6 +110,25 @@ def run_sy(case):
             viol.append(('not-constant-beyond-table',
                          '%r: Sy(%r) = %r, end value %r'
                          % (pars, z, float(sy(z)), w)))
+    if case.get('published') or case['sd'] == 1.0:
+        from mc.lib import dumps
+        status, exc, rows, _ = dumps.run_dump(
+            'specific-yield', full_parameters(sy=pars), -120.0, 120.0, 9)
+        if status != 0:
+            viol.append(('dump-failed', repr(exc)))
+        else:
+            for (level_cm, value), wl_cm in zip(rows, np.linspace(
+                    -120.0, 120.0, 9)):
+                want_v = float(np.interp(
+                    min(max(wl_cm * 10.0, knots[0]), knots[-1]), knots,
+                    want))
+                if not abs(level_cm - wl_cm) <= 1e-9 * (abs(wl_cm) + 1) \
+                        or not abs(value - want_v) <= 1e-10 * scale:
+                    viol.append(('dump-row',
+                                 'specific-yield dump row (%r cm, %r), '
+                                 'expected (%r cm, %r)'
+                                 % (level_cm, value, wl_cm, want_v)))
+                    break
     if case.get('published'):
         wl, ref = hydraulics.r_script_sy()
         if not np.allclose(np.array(wl) * 1000, knots):
@@ -137,6 +156,10 @@ def run_T(case):
         for form in (z, np.array([z]), [z]):
             try:
                 got = float(np.asarray(T(form)).ravel()[0])
+                if isinstance(form, np.ndarray) and float(form[0]) != z:
+                    viol.append(('caller-array-overwritten',
+                                 'after T(array) the caller\'s level reads '
+                                 '%r, it was %r' % (float(form[0]), z)))
             except Exception as exc:  # pylint: disable=broad-except
                 viol.append(('crash:' + exc_site(exc),
                              'T(%r) with %r: %r' % (form, pars, exc)))
@@ -156,11 +179,54 @@ def run_T(case):
             viol.append(('level-above-zeta-max-accepted',
                          'T(%r) = %r with zeta_max = %r cm'
                          % (form, got, case['zeta_max_cm'])))
+    viol += dump_T_violations(pars)
     seen = set()
     viol = [v for v in viol if not (v[0] in seen or seen.add(v[0]))]
     return Result(viol=viol, nontrivial=True,
                   outcome=repr(sorted(pars.items())),
                   counters={'levels_evaluated': 24})
+
+
+def full_parameters(sy=None, tr=None):
+    return {'specific_yield': dict(sy or {'sd': 0.162, 'theta_s': 0.88,
+                                          'b': 7.4, 'psi_s': -0.024},
+                                   type='peatclsm'),
+            'transmissivity': dict(tr or {'Ksmacz0': 7.3, 'alpha': 3,
+                                          'zeta_max_cm': 1.0},
+                                   type='peatclsm')}
+
+
+def dump_T_violations(pars):
+    """`spowtd plot transmissivity --dump` with PEATCLSM parameters: rows
+    pair each level with the formula; a range reaching above zeta_max is
+    refused (non-zero exit)"""
+    from mc.lib import dumps
+    out = []
+    zmax = pars['zeta_max_cm']
+    full = full_parameters(tr=pars)
+    status, exc, rows, _ = dumps.run_dump('transmissivity', full,
+                                          zmax - 90.0, zmax - 0.5, 6)
+    if status != 0:
+        out.append(('dump-failed', '%r: %r' % (pars, exc)))
+    else:
+        want_levels = list(np.linspace(zmax - 90.0, zmax - 0.5, 6))
+        for (level_cm, value), wl in zip(rows, want_levels):
+            want = hydraulics.peatclsm_T(wl * 10.0, **pars)
+            if not abs(level_cm - wl) <= 1e-9 * (abs(wl) + 1) or \
+                    not abs(value - want) <= 1e-12 * abs(want):
+                out.append(('dump-row',
+                            'dump row (%r cm, %r), expected (%r cm, %r) for '
+                            '%r' % (level_cm, value, wl, want, pars)))
+                break
+        if len(rows) != 6:
+            out.append(('dump-rows', '%d rows' % len(rows)))
+    status, exc, rows, text = dumps.run_dump('transmissivity', full,
+                                             zmax - 20.0, zmax + 5.0, 6)
+    if status == 0:
+        out.append(('dump-above-zeta-max-not-refused',
+                    'plot transmissivity up to %r cm with zeta_max = %r cm '
+                    'exited with status 0' % (zmax + 5.0, zmax)))
+    return out
 
 
 def run_case(case):
